@@ -92,6 +92,7 @@ META = {
 # proves the full statement outside the F-C10 path) and turn the `open:` line of readded-dep-stale-state into `fixed:`.
 READDED_FIX_APPLIED = True
 
+SHARED_TAG = 7
 OBS_PY = 'obs.jsonl'
 OBS_CMD = 'obs-cmd.txt'
 GETARGS_ERR = 'ERROR getting value for argument'
@@ -139,6 +140,7 @@ def norm_def(d):
     d.setdefault('calc', [])          # calc_dep task ids
     d.setdefault('subs', 0)           # > 0: group task with that many sub-task producers
     d.setdefault('cmd', False)        # first action is a cmd-action echoing the substitutions
+    d.setdefault('kwform', None)      # 'varkw' | 'explicit': python-action given as (callable, [], shared kwargs dict)
     d.setdefault('delayed', None)     # group only: task id after whose execution the group is created (create_after)
     return d
 
@@ -158,6 +160,7 @@ class World(statuslib.World):
     def __init__(self, backend, checker, ntasks, npaths):
         statuslib.World.__init__(self, backend, checker, ntasks, npaths)
         self.defs = {t: norm_def({}) for t in range(ntasks)}
+        self.shared_kw = {'tag': SHARED_TAG}
 
     def _effect(self, key):
         world = self
@@ -184,14 +187,38 @@ class World(statuslib.World):
             bits += ['A:%s=%%(%s)s' % (a, a) for a in argnames]
             return ['echo "%s" >> %s' % (';'.join(bits), OBS_CMD), effect]
 
-        def act(changed, dependencies, targets, **kw):
+        form = d['kwform']
+        own = argnames + (['tag'] if form else [])
+
+        def record(changed, dependencies, targets, kw):
             rec = {'t': tid, 'changed': list(changed), 'dependencies': list(dependencies), 'targets': list(targets),
                    'args': {k: kw[k] for k in argnames if k in kw},
-                   'extra': sorted(k for k in kw if k not in argnames)}
+                   'extra': sorted(k for k in kw if k not in own)}
+            if form:
+                rec['tag'] = kw.get('tag', 'absent')
             with open(OBS_PY, 'a') as f:
                 f.write(json.dumps(rec, default=repr) + '\n')
             return effect()
-        return [act]
+
+        def act(changed, dependencies, targets, **kw):
+            return record(changed, dependencies, targets, kw)
+        if not form:
+            return [act]
+        # the action is given as (callable, args, kwargs) with a NON-EMPTY kwargs dict that lives in the world: the same
+        # dict object is handed to every such task and to every doit invocation of the history (one dodo namespace run
+        # several times in one process)
+        if form == 'explicit':
+            # explicit parameters for the getargs entries, no **kwargs
+            if argnames == ['a0']:
+                def act(changed, dependencies, targets, tag, a0):  # noqa: F811
+                    return record(changed, dependencies, targets, {'tag': tag, 'a0': a0})
+            elif argnames == ['a0', 'a1']:
+                def act(changed, dependencies, targets, tag, a0, a1):  # noqa: F811
+                    return record(changed, dependencies, targets, {'tag': tag, 'a0': a0, 'a1': a1})
+            else:
+                def act(changed, dependencies, targets, tag):  # noqa: F811
+                    return record(changed, dependencies, targets, {'tag': tag})
+        return [(act, [], self.shared_kw)]
 
     def doit(self, argv, reporter=None):
         global _WORLD
@@ -648,6 +675,14 @@ def evaluate(cases):
     return out
 
 
+def _def_at(case, i, t):
+    d = {}
+    for op in case['ops'][:i + 1]:
+        if op[0] == 'redefine' and op[1] == t:
+            d = op[2]
+    return d
+
+
 def _judge(case, obs, tr, msteps, psteps, vsteps, v):
     for o in obs:
         if o['kind'] == 'run':
@@ -712,6 +747,11 @@ def _judge(case, obs, tr, msteps, psteps, vsteps, v):
                 v.count('reason:uptodate-false')
             if late:
                 v.compared_late += 1
+            if 'tag' in kw:
+                v.count('kwargs-dict-from-definition:' + str(norm_def(_def_at(case, i, t)).get('kwform')))
+                if kw['tag'] != SHARED_TAG:
+                    v.divergence = v.divergence or (i, 'task %s: keyword `tag` given in the action definition' % tname(t),
+                                                    kw['tag'], SHARED_TAG)
             if kw.get('extra'):
                 v.divergence = v.divergence or (i, 'task %s received unexpected keyword arguments %s' % (tname(t), kw['extra']),
                                                 kw['extra'], [])
@@ -856,6 +896,9 @@ def render(case):
                 bits.append('calc_dep %s' % [tname(c) for c in d['calc']])
             if d['cmd']:
                 bits.append('cmd-action')
+            elif d['kwform']:
+                bits.append('action = (callable %s, [], SHARED kwargs dict {tag: %d})'
+                            % ('with **kwargs' if d['kwform'] == 'varkw' else 'with explicit parameters', SHARED_TAG))
             out.append('%s = {%s}' % (tname(op[1]), '; '.join(bits)))
         elif k == 'run':
             s = op[1]
@@ -981,6 +1024,8 @@ def gen_case(rng, parallel=False):
                  if rng.random() < 0.4 else [],
                  'uptodate': [statuslib._weighted(rng, UTD_POOL)] if rng.random() < 0.45 else [],
                  'cmd': rng.random() < 0.25}
+            if not d['cmd'] and rng.random() < 0.5:
+                d['kwform'] = rng.choice(['varkw', 'varkw', 'explicit'])
             if sources and rng.random() < 0.75:
                 ga = []
                 for n in range(rng.choice([1, 1, 2])):
